@@ -123,6 +123,20 @@ def r1_protocol(P, rep, ctx):
                 continue
             rep.check(defined, "C08.R1", cq, f"{proto}.{m} is defined by the wrapper classes ({hit[0] if hit else '-'})", c.module.relpath,
                       construct=f"{cq.rsplit('.', 1)[-1]}.{m}", message=f"protocol member {m} of {proto} is {how}")
+    # container-like special methods that the object proxy forwards on its own must be overridden by the group wrapper,
+    # whether or not the protocol lists them (they expose names / nodes of the raw group)
+    CONTAINER_DUNDERS = ["__getitem__", "__setitem__", "__delitem__", "__iter__", "__len__", "__contains__", "__reversed__", "__getslice__", "__setslice__", "__delslice__"]
+    gq = f"{W}.MetadorGroup"
+    for m in CONTAINER_DUNDERS:
+        if m not in fwd:
+            continue
+        hit = P.lookup_method(gq, m)
+        defined = hit is not None and hit[0].startswith(W)
+        if m.endswith("slice__"):
+            rep.info(f"wrapt forwards {m} (Python 2 slicing protocol, never invoked by Python 3): not required")
+            continue
+        rep.check(defined, "C08.R1", gq, f"container special method {m} (forwarded by the object proxy) is overridden by the wrapper", P.cls(gq).module.relpath, construct=f"MetadorGroup.{m}",
+                  message=f"MetadorGroup does not define {m}; wrapt.ObjectProxy forwards it to the raw group, so e.g. {('reversed(container)' if m == '__reversed__' else m)} exposes reserved metador_* entries")
     # no pass-through in MetadorGroup.__getattr__
     ga = P.func(f"{W}.MetadorGroup.__getattr__")
     g = ctx.cfg(ga)
